@@ -53,7 +53,12 @@ def tlc(module, cfg, env=None, workers=1, timeout=900, extra=None, heap="2g", si
     _tlc_counter[0] += 1
     meta = os.path.join(WORK, "tlc", "%s-%d-%d" % (module, os.getpid(), _tlc_counter[0]))
     os.makedirs(meta, exist_ok=True)
-    e = {"JAVA_TOOL_OPTIONS": "-Xss1g -Xmx%s" % heap}
+    # short single-worker runs (trace validation, generators): C1 only and 2 GC threads cut the CPU cost by 3x, which matters
+    # because up to 16 of these JVMs run side by side
+    jopts = "-Xss1g -Xmx%s -XX:ParallelGCThreads=%d" % (heap, 2 if workers == 1 else 4)
+    if workers == 1 and not simulate:
+        jopts += " -XX:TieredStopAtLevel=1"
+    e = {"JAVA_TOOL_OPTIONS": jopts}
     if env:
         e.update(env)
     cmd = ["timeout", str(timeout), "tlc", "-workers", str(workers), "-metadir", meta, "-cleanup", "-noGenerateSpecTE",
